@@ -76,6 +76,20 @@ def correspondence(ctx):
             else:
                 f, x = rng.choice(streams); parts.append(f); content += x
         comps.append((b"".join(parts), content))
+    # directed compositions: a frame that leaves a small input buffer and a large ring, followed by one that needs a larger input buffer but a smaller total
+    dl = []
+    dm = []
+    for _ in range(10 if ctx.quick() else 150):
+        wa = rng.choice([14, 15, 16])
+        xa = bytes(rng.choice(b"etaoin shrdlu,.\n") for _ in range((1 << wa) * 2))
+        xb = bytes(rng.getrandbits(8) if rng.random() < 0.9 else 32 for _ in range(rng.randint((1 << wa) + 2000, min(131072, (1 << wa) * 2 - 3000))))
+        dl.append("comp2 c2 100=1,101=%d,200=0 %s" % (wa, xa.hex())); dl.append("comp2 c2 100=1,101=17,200=1 %s" % xb.hex()); dm.append((xa, xb))
+    dout = frames.run_lines(exe, dl, timeout=1800)[1]
+    for k, (xa, xb) in enumerate(dm):
+        a, b = dout[2 * k], dout[2 * k + 1]
+        if a.startswith("err") or b.startswith("err"):
+            continue
+        comps.append((bytes.fromhex(a) + bytes.fromhex(b), xa + xb))
     info = frames.parallel(lambda ch: frames.model_lines(ch), frames.split_chunks(["frameinfo %d %s" % (len(c), frames.hx(f)) for f, c in comps], 16))
     tl, tmeta = [], []
     for (f, c), fi in zip(comps, info):
